@@ -450,6 +450,30 @@ impl ScopeArena {
         for id in &drop_list {
             self.token_scopes.remove(id);
         }
+
+        // Imports, wildcard imports and mixins are written by the file's own
+        // statements (`apply_import` / `resolve_interfaces` re-add them from
+        // the re-analyzed text), so the ones an earlier text left behind must
+        // go with it. Their path is the one written in that file.
+        let from_file = |path: &GenericSymbolPath| {
+            path.paths
+                .first()
+                .is_some_and(|x| x.base.source == file_path)
+        };
+        let targets: Vec<bool> = (0..self.scopes.len())
+            .map(|i| prj.is_none() || self.project_of(ScopeId(i as u32)) == prj)
+            .collect();
+        for (scope, target) in self.scopes.iter_mut().zip(targets) {
+            if !target {
+                continue;
+            }
+            scope.imports.retain(|_, bindings| {
+                bindings.retain(|x| !from_file(&x.package_path));
+                !bindings.is_empty()
+            });
+            scope.wildcards.retain(|x| !from_file(&x.package_path));
+            scope.mixins.retain(|x| !from_file(&x.source_path));
+        }
     }
 
     fn export_tokens_by_path(&self, file_path: PathId) -> Vec<(TokenId, Namespace)> {
